@@ -66,7 +66,7 @@ reg("C04",
 reg("C16",
     "differential property-based testing strict vs. non-strict parsing over generated markup soup and all truncations (EOF sites) of generated documents, plus a validity predicate over every recorded error",
     "Exploration: strict mode must raise exactly html5parser.ParseError iff the non-strict parse recorded an error, with the first error's formatted message; every recorded error needs a template in constants.E that formats with its variables and a position inside the input; conforming generated documents must record none in four spellings (explicit, optional tags omitted by the reference rules, two with '/>' / other quoting / upper case); (first, input) pairs on one strict and one non-strict parser object must give the second input the outcome of new objects. Evidence lists the error codes reached (115 of 132; the rest have no call site). Held on everything explored.",
-    "Positions are judged against the newline-normalised input. Three defects found by this check were repaired in /repo (fix: commits).",
+    "Positions are judged against the newline-normalised input. Trusted for the absolute leg: vf/ref/treebuilder.py (127 marked parse-error sites). Five defects found by this check were repaired in /repo (fix: commits).",
     "DESIGN.md §3 C16")
 
 reg("C05",
@@ -142,6 +142,25 @@ reg("C12",
     "Thread interleavings are owned at read() granularity only; preemptive races inside a token are out of reach. One defect (phase-object state leaking after an aborted parse) repaired.",
     "DESIGN.md §3 C12")
 
+# clauses added after seeding round 5 (appended to the level text of the property)
+EXTRA = {
+    "C01": " Enumerated families added later: foreign elements named like HTML structure elements, integration point x mis-nested formatting element x one following token, newlines in and after pre/listing/textarea.",
+    "C02": " A case may have another document parsed by html5lib.parse() in the same process before it (tokens a tree builder modified must not leak into later tokenizer output) and may arrive as an io.StringIO whose beginning was already read.",
+    "C03": " Byte documents whose declaration lies behind the prescan window are enumerated over an alphabet of ISO-2022-JP escape sequences and <meta> declarations x encoding hints (bytes that are markup in one decoding pass and text in the other).",
+    "C05": " Texts contain <meta> declarations of other encodings followed by non-ASCII text (a declaration must not matter once the encoding is certain).",
+    "C07": " A second shard enumerates EVERY Unicode scalar value (runs of 127 consecutive code points as text and as attribute value) through two narrow output encodings and reads it back.",
+    "C08": " Re-render leg: the caller's own token list object is rendered once with alphabetical_attributes and then again by the judged run; nothing of it may be missing the second time.",
+    "C10": " The sanitized output may also be re-read as BYTES without any encoding information (BOM / <meta> prescan / default decide), with quotes, <meta> look-alikes and ISO-2022-JP escapes inside attribute values in the vocabulary.",
+    "C11": " The etree walker is also taken for a second ElementTree implementation (pure-Python module loaded beside the accelerated one), requested after the default walker: same document, same stream. Doctype identifiers are compared as they are ('' is not None).",
+    "C12": " A fifth parser kind uses getTreeBuilder('etree', implementation=<second ElementTree implementation>) without further keywords; the class of the returned object is part of the compared result.",
+    "C13": " The conforming documents are also run under the eight other DOCTYPEs a conforming document may carry; the grammar includes empty body elements and a comment after </body>.",
+    "C15": " Both parses may run with scripting=True (documents without a declaration inside head noscript and without unencodable text); every Unicode scalar value is written under narrow encodings in runs of 127 and read back.",
+    "C16": " Absolute leg: for a document on which html5lib records no error, the reference tree constructor must not have passed any parse-error step of the standard (one-directional: it reports missing errors); exercised by conforming documents with one mutation (cut, DOCTYPE variant, inserted token). Byte-input shard: strict vs. non-strict when the first decoding pass is abandoned for a re-parse.",
+    "C17": " A second leg is judged against the tree (own traversal) instead of the walker's stream: all non-whitespace characters of the tree come out in order, and text the tree places outside preserve elements keeps no tab/LF/FF/CR.",
+    "C18": " The serializer clause also goes through html5lib.serializer.serialize(), preceded by calls with other options of equal values.",
+    "C19": " to_sax is also run over getTreeWalker('etree', implementation=<second ElementTree implementation>) requested after the default walker; the events must equal the default implementation's.",
+}
+
 NOT_APPLICABLE = {}
 
 
@@ -153,6 +172,7 @@ def main():
         if pid not in CHECKS:
             continue
         tech, text, note, ref = CHECKS[pid]
+        text = text + EXTRA.get(pid, "")
         checks.append({
             "property_id": pid,
             "quick_cmd": "./check %s --tier quick" % pid,
